@@ -162,6 +162,12 @@ func getGrafanaNetAddr(addr string) (string, string, string) {
 // NewGrafanaNet creates a special route that writes to a grafana.net datastore
 // We will automatically run the route and the destination
 func NewGrafanaNet(key string, matcher matcher.Matcher, cfg GrafanaNetConfig) (Route, error) {
+	if cfg.Concurrency < 1 {
+		return nil, errors.New("NewGrafanaNet: concurrency must be at least 1")
+	}
+	if cfg.BufSize < 0 {
+		return nil, errors.New("NewGrafanaNet: bufSize must not be negative")
+	}
 	schemas, err := getSchemas(cfg.SchemasFile)
 	if err != nil {
 		return nil, err
